@@ -524,5 +524,47 @@ func main() {
 	first, labels := pl.svcPipelines(pl.method("Config", "Validate"))
 	fmt.Printf("/-- service/pipelines/config.go `Config.Validate`: (gate, error) of the `len(cfg) == 0` test -/\ndef noPipelines : String × Msg := %s\n\n", first)
 	fmt.Printf("/-- … and its signal switch: (case labels, number of return statements in the clause) -/\ndef signalSwitch : List (String × Nat) := [%s]\n\n", strings.Join(labels, ", "))
+	// every place in package otelcol (non-test files) where a configuration is validated: `xconfmap.Validate(x)` (the walk: every
+	// nested Validate) or a direct `x.Validate()` method call (the top-level method only)
+	ents, err := os.ReadDir(filepath.Join(repo, "otelcol"))
+	if err != nil {
+		die("%v", err)
+	}
+	var calls []string
+	for _, e := range ents {
+		n := e.Name()
+		if e.IsDir() || !strings.HasSuffix(n, ".go") || strings.HasSuffix(n, "_test.go") {
+			continue
+		}
+		f, err := parser.ParseFile(token.NewFileSet(), filepath.Join(repo, "otelcol", n), nil, 0)
+		if err != nil {
+			die("%v", err)
+		}
+		for _, d := range f.Decls {
+			fd, ok := d.(*ast.FuncDecl)
+			if !ok || fd.Body == nil {
+				continue
+			}
+			fname := fd.Name.Name
+			if fd.Recv != nil && len(fd.Recv.List) == 1 {
+				fname = strings.TrimPrefix(str(fd.Recv.List[0].Type), "*") + "." + fname
+			}
+			ast.Inspect(fd.Body, func(nd ast.Node) bool {
+				c, ok := nd.(*ast.CallExpr)
+				if !ok {
+					return true
+				}
+				sel, ok := c.Fun.(*ast.SelectorExpr)
+				if !ok || sel.Sel.Name != "Validate" {
+					return true
+				}
+				if str(c.Fun) == "xconfmap.Validate" || len(c.Args) == 0 {
+					calls = append(calls, fmt.Sprintf("(%q, %q, %q)", "otelcol/"+n, fname, str(c)))
+				}
+				return true
+			})
+		}
+	}
+	fmt.Printf("/-- every validation of a configuration in package otelcol: (file, function, call) -/\ndef validationCalls : List (String × String × String) := [\n  %s\n]\n\n", strings.Join(calls, ",\n  "))
 	fmt.Printf("end OtelVerif.Gen.ConfigValidate\n")
 }
